@@ -640,7 +640,7 @@ pub fn c05(args: &Args) -> i32 {
         println!("re-running the whole check (every case is deterministic):");
     }
     let run = Run::new(args, "exploration", 55.0, 1500.0);
-    run.set_rule("plan trees from three sources — S1 the IR the real IRBuilder emits for every program of families F1-F6,F8,F9; S2 EVERY tree with up to 3 nodes plus every 16th tree of 4 nodes (thorough: every tree with up to 5 nodes) over Scan/filtered Scan leaves, Map (8 projections), Filter (7 predicates), Distinct, Compute (2), Aggregate (4), Join, Antijoin, Union in the builder's naming discipline; S3 ten operator templates x EVERY predicate form x every column choice — each executed by the real CodeGenerator on small databases before and after each real pass: Optimizer::optimize, JoinPlanner::plan_joins, BooleanSpecializer::specialize (executed under the semiring it selects), and the three production compositions; answers compared as sets. Databases: the full product of per-relation menus (arity 1: all 8 subsets of {1,2,3}; arity 2: all 16 subsets of {1,2}^2 plus 7 sets with a third value; arity 3: 15 sets) when it is within the cap, else a fixed-stride subset (counted); S3 uses 224 databases whose columns hold ints, strings, floats and bools. non-trivial = distinct (plan, database) with a non-empty answer");
+    run.set_rule("plan trees from three sources — S1 the IR the real IRBuilder emits for every program of families F1-F6,F8,F9; S2 EVERY tree with up to 3 nodes plus every 32nd tree of 4 nodes (thorough: every tree with up to 5 nodes) over Scan/filtered Scan leaves, Map (8 projections), Filter (7 predicates), Distinct, Compute (2), Aggregate (4), Join, Antijoin, Union in the builder's naming discipline; S3 ten operator templates x EVERY predicate form x every column choice — each executed by the real CodeGenerator on small databases before and after each real pass: Optimizer::optimize, JoinPlanner::plan_joins, BooleanSpecializer::specialize (executed under the semiring it selects), and the three production compositions; answers compared as sets. Databases: the full product of per-relation menus (arity 1: all 8 subsets of {1,2,3}; arity 2: all 16 subsets of {1,2}^2 plus 7 sets with a third value; arity 3: 15 sets) when it is within the cap, else a fixed-stride subset (counted); S3 uses 224 databases whose columns hold ints, strings, floats and bools. non-trivial = distinct (plan, database) with a non-empty answer");
     run.assume("the real CodeGenerator::execute (with the semiring the specializer selects) is the denotation of a plan; no harness re-implementation of plan semantics is involved");
     let quick = run.quick();
     let mut cases: Vec<Case> = vec![];
@@ -668,13 +668,13 @@ pub fn c05(args: &Args) -> i32 {
     for (i, c) in cases.iter().enumerate() {
         let sz = size(&c.ir);
         match (c.source, quick) {
-            ("sweep", true) => work.push((i, 16, 4)),
+            ("sweep", true) => work.push((i, 12, 8)),
             ("sweep", false) => work.push((i, 200, 1)),
-            ("builder", true) => work.push((i, 32, 0)),
+            ("builder", true) => work.push((i, 24, 0)),
             ("builder", false) => work.push((i, 400, 0)),
-            (_, true) if sz <= 3 => work.push((i, 32, 0)),
+            (_, true) if sz <= 3 => work.push((i, 24, 0)),
             (_, true) => {
-                if i % 16 == 0 {
+                if i % 32 == 0 {
                     work.push((i, 12, 0))
                 }
             }
@@ -683,6 +683,18 @@ pub fn c05(args: &Args) -> i32 {
             (_, false) => work.push((i, 6, 0)),
         }
     }
+    // small synthetic trees first, then builder plans, then the predicate sweep, then the larger synthetic trees:
+    // if the time cap ends the walk, what was covered is the cheaper, denser part
+    let rank = |i: usize| -> usize {
+        let c = &cases[i];
+        match c.source {
+            "synthetic" if size(&c.ir) <= 3 => 0,
+            "builder" => 1,
+            "sweep" => 2,
+            _ => 3,
+        }
+    };
+    work.sort_by_key(|w| (rank(w.0), w.0));
     run.put("plans_selected_for_this_tier", json!(work.len()));
     let strided = std::sync::atomic::AtomicUsize::new(0);
     let full = std::sync::atomic::AtomicUsize::new(0);
